@@ -1365,7 +1365,7 @@ def run_history(ctx, ops, lean_lines, meta):
 
 
 def run(ctx):
-    n_hist = ctx.budget(250, 6000)
+    n_hist = ctx.budget(250, 3000)
     max_ops = 22 if ctx.tier == "quick" else 40
     histories = [(list(c), None) for c in CORPUS]
     for k in range(n_hist):
